@@ -98,13 +98,12 @@ def cStdJoin (n : Nat) (es : List (Option Err)) : Option Err :=
   | l => some (.multi (lid n 0) .stdJoin l)
 
 /-- contexttags.WithContextTags: no tags in the context = unchanged.  `tags` are the keys
-    with the string form of their values; `red` is the layer's SafeDetails() — it depends
-    on whether a value is a plain string (redacted), a Safe value (kept) or nil, and is
-    computed by the real redact package (an input here, like `rs`). -/
-def cTags (n : Nat) (tags : List (Str × Str)) (red : List Str) : Option Err → Option Err
+    with the string form of their values; `kinds` says whether a value is a plain string
+    (unsafe), a Safe value or nil. -/
+def cTags (n : Nat) (tags : List (Str × Str)) (kinds : List Nat) : Option Err → Option Err
   | none => none
   | some e => if tags = [] then some e
-    else some (.wrap (lid n 0) (.withContext tags (if red = [] then none else some red)) e)
+    else some (.wrap (lid n 0) (.withContext tags kinds none) e)
 
 /-- errutil.AssertionFailedf (no error args) -/
 def cAssertionFailedf (n : Nat) (rs : RStr) (st : Stack) : Option Err :=
